@@ -55,6 +55,7 @@ type vC06Want struct {
 	typ   int
 	d, c  byte
 	origin string
+	csfx  string // text between the RDATA name's letter and the origin ("." or, for a label ending in an escaped dot, "\\..")
 }
 
 func vC06Check(rr RR, w vC06Want) bool {
@@ -66,9 +67,9 @@ func vC06Check(rr RR, w vC06Want) bool {
 	case *A:
 		return w.typ == 0 && refBytesEqual(x.A.To4(), []byte{192, 0, 2, w.d - '0'})
 	case *NS:
-		return w.typ == 1 && x.Ns == string([]byte{w.c})+"."+w.origin
+		return w.typ == 1 && x.Ns == string([]byte{w.c})+w.csfx+w.origin
 	case *MX:
-		return w.typ == 2 && x.Preference == uint16(w.d-'0')*10+7 && x.Mx == string([]byte{w.c})+"."+w.origin
+		return w.typ == 2 && x.Preference == uint16(w.d-'0')*10+7 && x.Mx == string([]byte{w.c})+w.csfx+w.origin
 	case *TXT:
 		return w.typ == 3 && len(x.Txt) == 1 && x.Txt[0] == string([]byte{w.c, ' ', w.d})
 	}
@@ -89,6 +90,7 @@ type vC06Style struct {
 	tail   int // 0 nothing, 1 comment, 2 trailing blanks
 	blank  int // blank/comment-only lines in front
 	ttlkw  int
+	esc    int // 1: the relative owner label and the relative RDATA name end in an escaped dot (l\.): still relative
 }
 
 var vC06Styles = []vC06Style{
@@ -100,10 +102,12 @@ var vC06Styles = []vC06Style{
 	{dir: 3, owner: 3, ttl: 0, class: 1, paren: 1, tail: 1},
 	{owner: 4, ttl: 0, class: 0},
 	{dir: 1, ttlkw: 1, owner: 1, ttl: 2, unit: 5, class: 2, order: 1, tcase: 1},
+	{owner: 0, ttl: 2, class: 1, esc: 1},
 	{owner: 2, ttl: 1, unit: 4, class: 0, paren: 1, blank: 1},
 	{dir: 2, owner: 4, ttl: 2, unit: 6, class: 1, tail: 1},
 	{dir: 1, ttlkw: 2, owner: 0, ttl: 3, unit: 1, class: 0, tcase: 1, blank: 1},
 	{dir: 3, owner: 1, ttl: 0, class: 2, order: 1, tail: 2},
+	{dir: 2, owner: 2, ttl: 1, class: 0, esc: 1, tail: 1},
 }
 
 // H_C06_render: a zone of 2..3 records is written in one of many equivalent ways; the parsed records are the
@@ -151,6 +155,10 @@ func H_C06_render() {
 			l := vLower(p + "l")
 			owner = string([]byte{l}) + "." + origin
 			ownerText = string([]byte{l})
+			if st.esc == 1 {
+				owner = string([]byte{l}) + "\\.." + origin
+				ownerText = string([]byte{l}) + "\\."
+			}
 		case 1: // absolute
 			l := vLower(p + "l")
 			owner = string([]byte{l}) + "." + origin
@@ -166,7 +174,12 @@ func H_C06_render() {
 		}
 		prevOwner = owner
 		var ttlText string
-		want := vC06Want{owner: owner, typ: rec.typ, d: rec.d, c: rec.c, origin: origin}
+		want := vC06Want{owner: owner, typ: rec.typ, d: rec.d, c: rec.c, origin: origin, csfx: "."}
+		cText := string([]byte{rec.c})
+		if st.esc == 1 {
+			want.csfx = "\\.."
+			cText += "\\."
+		}
 		if st.ttl > 0 {
 			var ds []byte
 			for k := 0; k < st.ttl; k++ {
@@ -208,11 +221,11 @@ func H_C06_render() {
 		case 0:
 			rdata = "192.0.2." + string([]byte{rec.d})
 		case 1:
-			rdata = string([]byte{rec.c})
+			rdata = cText
 		case 2:
-			rdata = string([]byte{rec.d}) + "7 " + string([]byte{rec.c})
+			rdata = string([]byte{rec.d}) + "7 " + cText
 			if st.paren == 1 {
-				rdata = string([]byte{rec.d}) + "7 (\n\t" + string([]byte{rec.c}) + " ) "
+				rdata = string([]byte{rec.d}) + "7 (\n\t" + cText + " ) "
 			}
 		default:
 			rdata = "\"" + string([]byte{rec.c, ' ', rec.d}) + "\""
